@@ -18,19 +18,66 @@ pub struct St {
     pub rewinds: u64,
 }
 
+thread_local! {
+    /// C11 / C20: step budget of the parse in progress.  Every token consumed, checkpoint taken and rewind counts one
+    /// step; a parse that exhausts its budget is stopped by a panic (caught per case and reported as an observation),
+    /// so that a parser that no longer terminates is seen as such instead of hanging or exhausting memory.
+    pub static FUEL: std::cell::Cell<u64> = std::cell::Cell::new(u64::MAX);
+}
+pub const FUEL_MSG: &str = "FUEL: the parse did not finish within its step budget";
+#[inline]
+fn burn() {
+    FUEL.with(|f| {
+        let v = f.get();
+        if v == 0 {
+            f.set(u64::MAX); // one panic per parse: let the unwinding run freely
+            panic!("{}", FUEL_MSG);
+        }
+        if v != u64::MAX {
+            f.set(v - 1);
+        }
+    })
+}
+/// Generous for the grammars of the families (which need tens to hundreds of steps on their short inputs, a few per token
+/// on the long ones), yet small enough that a runaway recursion is stopped while the stack is still shallow: the panic
+/// has to unwind through every stacker segment, which is slow on very deep stacks.
+pub fn budget(ntok: usize) -> u64 {
+    60_000 + 300 * ntok as u64
+}
+thread_local! {
+    /// the largest share of its budget any parse on this thread has used (reported by `replay`, to keep the budget honest)
+    pub static MAX_USED: std::cell::Cell<(u64, u64)> = std::cell::Cell::new((0, 1));
+}
+pub fn note_used(ntok: usize) {
+    let b = budget(ntok);
+    let left = FUEL.with(|f| f.get());
+    if left != u64::MAX && left <= b {
+        let used = b - left;
+        MAX_USED.with(|m| {
+            let (u0, b0) = m.get();
+            if used as u128 * b0 as u128 > u0 as u128 * b as u128 {
+                m.set((used, b));
+            }
+        });
+    }
+}
+
 impl<'a, I: Input<'a>> Inspector<'a, I> for St
 where
     I::Token: Tok,
 {
     type Checkpoint = (usize, u64);
     fn on_token(&mut self, t: &I::Token) {
+        burn();
         self.hash = mix(self.hash, t.ch());
         self.count += 1;
     }
     fn on_save<'p>(&self, _: &Cursor<'a, 'p, I>) -> (usize, u64) {
+        burn();
         (self.count, self.hash)
     }
     fn on_rewind<'p>(&mut self, m: &Checkpoint<'a, 'p, I, (usize, u64)>) {
+        burn();
         let (c, h) = *m.inspector();
         self.count = c;
         self.hash = h;
